@@ -416,6 +416,11 @@ impl<T: Clone + Copy + Number> Mul<&Vector<T>> for &Tridiagonal<T> {
             panic!( "Tridiagonal matrix and vector sizes do not agree (*)." ); 
         }
         let mut result = Vector::<T>::new( self.size(), T::zero() );
+        if self.n == 1 {
+            // A 1x1 matrix has no sub/super-diagonal entries
+            result[ 0 ] = self.main[ 0 ] * vec[ 0 ];
+            return result;
+        }
         result[ 0 ] = self.main[ 0 ] * vec[ 0 ] + self.sup[ 0 ] * vec[ 1 ];
         for i in 1..self.size() - 1 {
             result[ i ] = self.sub[ i - 1 ] * vec[ i - 1 ] + self.main[ i ] * vec[ i ]
